@@ -1261,7 +1261,7 @@ macro_rules! c14_psk8_mod {
 /// max* correction term: hard decisions return the transmitted triple, in modulator bit order.
 #[macro_export]
 macro_rules! c14_psk8_demod {
-    ($name:ident, $sigma:expr, $eps:expr) => {
+    ($name:ident, $sigma:expr, $eps:expr, $mag:expr) => {
         $crate::with_contract_stubs! { 10,
         fn $name() {
             let bits: [bool; 3] = kani::any();
@@ -1280,6 +1280,38 @@ macro_rules! c14_psk8_demod {
                 // positive LLR <=> bit 0
                 if bits[i] { assert!(l[i] < 0.0); } else { assert!(l[i] > 0.0); }
                 i += 1;
+            }
+            if $mag {
+                // (noiseless variant only: with a symbolic perturbation the second set of products is a multiplier
+                // miter that does not finish)
+                // independent max-log reference from the pinned constellation: for each bit, the best metric
+                // <r, s>/sigma^2 among the four labels with that bit 0, minus the best among the four with bit 1
+                let a = (0.5f64).sqrt();
+                let scale = 1.0 / ($sigma * $sigma);
+                let mut best = [[f64::NEG_INFINITY; 2]; 3];
+                let mut lab = 0usize;
+                while lab < 8 {
+                    let lb = [(lab >> 2) & 1 == 1, (lab >> 1) & 1 == 1, lab & 1 == 1];
+                    let (pr, pi) = $crate::macros::psk8_point($crate::macros::psk8_octant(lb[0], lb[1], lb[2]), a);
+                    let m = (r.re * pr + r.im * pi) * scale;
+                    let mut b = 0;
+                    while b < 3 {
+                        let side = if lb[b] { 1 } else { 0 };
+                        if m > best[b][side] { best[b][side] = m; }
+                        b += 1;
+                    }
+                    lab += 1;
+                }
+                let mut i = 0;
+                while i < 3 {
+                    // each max* over four metrics lies in [max, max + ln 4]; with the pairwise CONTRACT bound 3*0.6932.
+                    // So the LLR is the max-log value up to +-2.08 (plus float slack): pins the bit partitions and
+                    // constants of the demapper
+                    let ml = best[i][0] - best[i][1];
+                    assert!(l[i] >= ml - 2.0797 - 1.0e-6 * scale);
+                    assert!(l[i] <= ml + 2.0797 + 1.0e-6 * scale);
+                    i += 1;
+                }
             }
             kani::cover!(bits[0] && !bits[1] && bits[2]);
             core::mem::forget(s); core::mem::forget(cw); core::mem::forget(l);
